@@ -248,10 +248,13 @@ func (env *SpecEnv) modItems(c *Clause) (items []locItem, err error) {
 				cl, so := ghostClass(a.Args[1].Name, t)
 				items = append(items, locItem{class: cl, sort: so, all: true})
 				continue
-			case "gf":
+			case "gf", "gfi":
 				o, _ := env.tr(a.Args[1])
 				t := env.resolveTypeExpr(a.Args[3])
 				cl, so := ghostClass(a.Args[2].Name, t)
+				if a.Args[0].Name == "gfi" {
+					cl, so = "GI|"+a.Args[2].Name, arraySort("Iface", sortOf(t))
+				}
 				items = append(items, locItem{class: cl, sort: so, loc: o})
 				continue
 			case "object":
@@ -358,8 +361,14 @@ func (e *FnExec) doReturn(st *State, r *ssa.Return) {
 			if cur == ent {
 				continue
 			}
-			l := Fresh("frame_l", "Loc")
-			goal := Imp(And(Lt(Root(l), e.entry.ctr), Not(inItems(l, c, items))), Eq(Select(cur, l), Select(ent, l)))
+			var goal *Term
+			if strings.HasPrefix(sort, "(Array Iface ") {
+				l := Fresh("frame_i", "Iface")
+				goal = Imp(Not(inItems(l, c, items)), Eq(Select(cur, l), Select(ent, l)))
+			} else {
+				l := Fresh("frame_l", "Loc")
+				goal = Imp(And(Lt(Root(l), e.entry.ctr), Not(inItems(l, c, items))), Eq(Select(cur, l), Select(ent, l)))
+			}
 			e.assert(st, "frame", goal, r.Pos(), "modifies: nothing outside the declared frame changes in "+c, strings.TrimPrefix(c, "M|"))
 		}
 	}
@@ -775,7 +784,7 @@ func (e *FnExec) applyContract(st *State, key string, con *Contract, sig *types.
 		}
 	}
 	// results
-	post := &SpecEnv{pureIdx: -1, e: e, cur: st, old: pre, vars: env.vars, pkg: pkg}
+	post := &SpecEnv{pureIdx: -1, e: e, cur: st, old: pre, vars: env.vars, pkg: pkg, atCallSite: true}
 	if res != nil {
 		rs := sig.Results()
 		var rvals []Val
@@ -823,7 +832,9 @@ func (e *FnExec) applyContract(st *State, key string, con *Contract, sig *types.
 	for _, en := range con.Ensures {
 		g, err := post.boolExpr(en)
 		if err != nil {
-			e.errf("%v", err)
+			if !strings.Contains(err.Error(), "@skip") {
+				e.errf("%v", err)
+			}
 			continue
 		}
 		e.addFact(st, Imp(guard, g))
